@@ -15,6 +15,26 @@ fn main() {
         let out2 = ROUTER.route_ipc_receiver_to_new_crossbeam_receiver(rx2);
         let r = tx2.send(7);
         println!("second route send: {:?}; recv: {:?}", r.is_ok(), out2.recv_timeout(Duration::from_secs(1)));
+    } else if which == "crash" {
+        // C12 CLOSED-ORIGIN: a sender process dies in the middle of a multi-fragment message while
+        // another sender handle (ours) survives; the receiver must not be told "disconnected".
+        let (tx, rx) = ipc::bytes_channel().unwrap();
+        let child = unsafe { libc::fork() };
+        if child == 0 {
+            let big = vec![0x5au8; 64 << 20];
+            let _ = tx.send(&big); // blocks: nobody reads the follow-up fragments yet
+            unsafe { libc::_exit(0) };
+        }
+        std::thread::sleep(Duration::from_millis(500));
+        unsafe {
+            libc::kill(child, libc::SIGKILL);
+            let mut st = 0;
+            libc::waitpid(child, &mut st, 0);
+        }
+        let r = rx.recv();
+        println!("recv after the sending process was killed mid-message: {:?}", r.as_ref().map(|v| v.len()));
+        println!("surviving sender still works: send={:?}", tx.send(b"still here").is_ok());
+        println!("next recv: {:?}", rx.recv().map(|v| String::from_utf8_lossy(&v).to_string()));
     } else {
         // a sender is embedded, the receiving side decodes it as a receiver
         let (tx, rx) = ipc::channel::<IpcSender<u8>>().unwrap();
